@@ -314,6 +314,8 @@ class Processor:
 
         if isinstance(obj, dict) and att in obj:
             obj[att] = new_value
+        elif not self.has(key):
+            raise AttributeError(f"Attribute {key!r} does not exist !")
         else:
             setattr(obj, att, new_value)
 
